@@ -7,6 +7,28 @@ use crate::stream::{
 use crate::verif_env::*;
 use crate::verif_env::refmodel;
 
+impl DecodeHooks for Hooks {
+    fn read_residuals_i32<R: BitRead>(r: &mut R, order: usize, res: &mut [i32]) -> Result<(), Error> {
+        read_residuals(r, order, res)
+    }
+    fn read_subframe_i32<R: BitRead>(r: &mut R, bps: u32, ch: &mut [i32]) -> Result<(), Error> {
+        read_subframe::<32, R, i32>(r, SignedBitCount::<32>::try_from(bps).unwrap(), ch)
+    }
+    fn read_subframe_i64<R: BitRead>(r: &mut R, bps: u32, ch: &mut [i64]) -> Result<(), Error> {
+        read_subframe::<33, R, i64>(r, SignedBitCount::<33>::try_from(bps).unwrap(), ch)
+    }
+    fn predict_i32(coefficients: &[i64], shift: u32, ch: &mut [i32]) {
+        predict(coefficients, shift, ch)
+    }
+    fn read_subframes<R: BitRead>(
+        r: R,
+        header: &FrameHeader,
+        buf: &mut Frame,
+    ) -> Result<(), Error> {
+        read_subframes(r, header, buf)
+    }
+}
+
 fn sbc32(bits: u32) -> SignedBitCount<32> {
     SignedBitCount::<32>::try_from(bits).unwrap()
 }
